@@ -88,6 +88,18 @@ func fnExec(ctx *cmdContext, args map[string]any) (output respValue, err error) 
 		return
 	}
 
+	// a queued FLUSHALL needs every data store: the lock that orders such operations is taken
+	// before our own data store, or two transactions could wait for each other's data store
+	for _, cc := range *ctx.cs.cmdQueue {
+		if cc.cmdToken == "flushall" {
+			multiDataStoreLock.Lock()
+			defer multiDataStoreLock.Unlock()
+			ctx.cs.multiStoreLockHeld = true
+			defer func() { ctx.cs.multiStoreLockHeld = false }()
+			break
+		}
+	}
+
 	// take complete ownership of the data store
 	ctx.dsc.acquireExclusive()
 	defer ctx.dsc.releaseExclusive()
